@@ -86,10 +86,18 @@ theorem C03_no_crash_without_checker_switch (h : List Op) (hn : NoSwitch h = tru
   exact (noSwitch_md5 true _ this).alive
 
 /-- the crash is reachable: `get_status` leaves through "missing target" before it would drop the record of the
-    other checker, then `save_success` hands the float state to `MD5Checker.get_state` -/
+    other checker, then `save_success` (called by `reset-dep`, which has no handler) hands the float state to
+    `MD5Checker.get_state` -/
 theorem C03_crash_reachable :
     (runHist true [.switchChecker .ts, .edit 0 4 1, .redefine 0 ⟨[0], [1], []⟩, .run 0 true false [(1, 4, 9)] none,
-      .delete 1, .switchChecker .md5, .run 0 true false [(1, 4, 9)] none]).crashed = true := by decide
+      .delete 1, .switchChecker .md5, .resetDep 0]).crashed = true := by decide
+
+/-- the same situation met by `run`: since the fix commit 8fa62ea the `TypeError` of `save_success` is a task failure;
+    the record is erased (no crash, and the task is not up-to-date afterwards) -/
+example :
+    let σ := runHist true [.switchChecker .ts, .edit 0 4 1, .redefine 0 ⟨[0], [1], []⟩, .run 0 true false [(1, 4, 9)] none,
+      .delete 1, .switchChecker .md5, .run 0 true false [(1, 4, 9)] none]
+    σ.crashed = false ∧ (σ.shadow 0).isNone = true ∧ σ.status true 0 = .run := by decide
 
 /-! ## non-vacuity: a history on which a task with a file dependency and a target really ends up-to-date, after a
     failed run, a forget, a checker switch and a dep-set change -/
